@@ -228,3 +228,14 @@ Proof.
            c c' o disk st st' Hs Hs' Hp Hf Hsub H1 H2); auto.
   intros T st0 v. apply new_cmd_sim; auto.
 Qed.
+
+Theorem new_twice_fixpoint : forall p c o1 o2 prior w dir,
+  c_sub c = CNew -> specified c = false -> c_sepflag c = true -> no_embedding (hand_of (p_hw p)) ->
+  legal o1 -> legal o2 -> NoDup (keys prior) ->
+  run o1 p prior c = ODone w dir ->
+  exists w' dir', run o2 p dir c = ODone w' dir' /\ listing dir' = listing dir /\ Permutation w' w.
+Proof.
+  intros p c o1 o2 prior w dir Hc Hs Hsep Hne. apply run_twice_fixpoint.
+  - unfold separate. rewrite Hs, Hsep. reflexivity.
+  - intros. apply new_run_independent; auto.
+Qed.
